@@ -211,6 +211,8 @@ func VerifC09Seq()         { vhCrashRecover(oC09, famSeq, kit.ModeOkFail, false)
 func VerifC09PlanGroups()  { vhCrashRecover(oC09, famPlanGroupsSmall, kit.ModeOkFail, false) }
 func VerifC09BlockGroups() { vhCrashRecover(oC09, famBlockGroupsSmall, kit.ModeOkFail, false) }
 func VerifC09Conc()        { vhCrashRecover(oC09, famConc2, kit.ModeOkFail, false) }
+func VerifC09Conc3()       { vhCrashRecover(oC09, famConc, kit.ModeOkFail, false) }
+func VerifC10Conc3()       { vhCrashRecover(oC10, famConc, kit.ModePerAction, false) }
 func VerifC09Double()      { vhCrashRecover(oC09, famSeqSmall, kit.ModeOkFail, true) }
 
 func VerifC10Seq()         { vhCrashRecover(oC10, famSeq, kit.ModePerAction, false) }
